@@ -751,7 +751,15 @@ func loadContractFile(cs *ContractSet, path, pkgPath string) error {
 			if len(ff) < 2 {
 				return fail(fmt.Errorf("immutable needs a type and at least one field"))
 			}
-			cs.Immutables = append(cs.Immutables, &Immutable{Pkg: pkgPath, Type: ff[0], Fields: ff[1:], Props: props})
+			im := &Immutable{Pkg: pkgPath, Type: ff[0], Props: props}
+			for _, x := range ff[1:] {
+				if strings.HasPrefix(x, "writers=") {
+					im.Writers = append(im.Writers, strings.Split(strings.TrimPrefix(x, "writers="), ",")...)
+				} else {
+					im.Fields = append(im.Fields, x)
+				}
+			}
+			cs.Immutables = append(cs.Immutables, im)
 		case "typeinv":
 			// typeinv TypeName E
 			if len(fs) < 3 {
